@@ -157,6 +157,9 @@ LexEntry:
                                 // Get the total number of generated tokens and specify "null"
                                 // information for them.
                                 auto all = strtoul(tk.valueText_c_str(), 0, 0);
+                                // There cannot be more generated tokens than remaining text.
+                                if (all > static_cast<unsigned long>(c_strEnd_ - yytext_))
+                                    all = c_strEnd_ - yytext_;
                                 auto prevSize = expansions.size();
                                 expansions.resize(prevSize + all);
                                 std::fill(expansions.begin() + prevSize,
@@ -174,6 +177,10 @@ LexEntry:
 
                                 // Store line and column for this non-generated token.
                                 expansions.push_back(std::make_pair(lineno, column));
+                            }
+                            else {
+                                // Neither a count nor a position: skip it.
+                                yylex(&tk);
                             }
                         }
                     }
